@@ -435,6 +435,11 @@ def likelihood_list(S, N1, N2):
         for nm, mk in (("tuple", lambda: (cn1, cn2)), ("generator", lambda: (t_ for t_ in (cn1, cn2))), ("dict values", lambda: {"a": cn1, "b": cn2}.values())):
             oo = S.must_not_raise("LikelihoodList call with the per-member noises given as a %s" % nm, lambda: llf(d1, d2, noise=mk()), any_origin=True)
             alt[nm] = [o.covariance_matrix for o in oo]
+        # a member without call-time noise gets None: it adds its own noise, the other member the noise passed for it
+        outs_none = S.must_not_raise("LikelihoodList call with noise=[None, tensor]", lambda: ll(d1, d2, noise=[None, cn2]), any_origin=True)
+        cnone = [o.covariance_matrix for o in outs_none]
+        lmarg = S.must_not_raise("LikelihoodList.log_marginal with one (observations, distribution) pair per member", lambda: ll.log_marginal((y1, d1), (y2, d2)), any_origin=True)
+        lm1, lm2 = l1.log_marginal(y1, d1), l2.log_marginal(y2, d2)
         sig = as_sym_arr(SH.get(l1.noise)).reshape(-1)[0]
         e = ll.expected_log_prob((y1, d1), (y2, d2))
         c = [(o.mean, o.covariance_matrix) for o in outs]
@@ -457,6 +462,10 @@ def likelihood_list(S, N1, N2):
             S.prove_eq(cc[0], CS1 + diag(CN1), "noise as a %s: member 0 gets its own noise" % nm)
             S.prove_eq(cc[1], CS2 + diag(CN2), "noise as a %s: member 1 gets its own noise" % nm)
     S.prove_eq(c[0][0], M1, "list member 0 mean"); S.prove_eq(c[1][0], M2, "list member 1 mean")
+    S.prove_eq(cnone[0], CS1 + eye(N1) * sig, "noise=[None, t]: member 0 adds its own s2 I")
+    S.prove_eq(cnone[1], CS2 + diag(CN2), "noise=[None, t]: member 1 adds the noise passed for it")
+    S.prove_eq(lmarg[0], as_sym_arr(SH.get(lm1)), "list log_marginal member 0")
+    S.prove_eq(lmarg[1], as_sym_arr(SH.get(lm2)), "list log_marginal member 1")
     S.prove_eq(e[0], as_sym_arr(SH.get(e1)), "list expected_log_prob member 0")
     S.prove_eq(e[1], as_sym_arr(SH.get(e2)), "list expected_log_prob member 1")
 
